@@ -1,0 +1,15 @@
+//go:build verif
+
+package gossiptopic
+
+// Contracts for the deductive checks in /verif (comment-only; no code).
+
+// A nil error comes with a topic handle and the function that shuts pubsub
+// down; on an error the pubsub context created on the way is cancelled and
+// nothing is returned (used by announce.NewReceiver: C16).
+//@ func MakeTopic
+//@   property C16
+//@   requires h != nil
+//@   ensures result2 == nil ==> result0 != nil && result1 != nil
+//@   ensures result2 != nil ==> result0 == nil && result1 == nil
+//@   ensures-local (result2 != nil ==> count("call:cancel") == 1) && (result2 == nil ==> count("call:cancel") == 0)
